@@ -808,7 +808,11 @@ func (g *Gen) loopMods(li *loopInfo) (comps map[string]bool, dirty map[string]bo
 				if !ct.Pure {
 					comps["alloc"] = true
 				}
-				for _, mcomp := range ct.Modifies {
+				mods := ct.Modifies
+				if ct.Then != nil {
+					mods = append(append([]string(nil), mods...), ct.Then.Modifies...) // second phase of a blocking call
+				}
+				for _, mcomp := range mods {
 					tmp := map[string]bool{}
 					for _, c := range g.expandMod(mcomp) {
 						tmp[c] = true
@@ -817,9 +821,33 @@ func (g *Gen) loopMods(li *loopInfo) (comps map[string]bool, dirty map[string]bo
 				}
 			}
 	}
+	sharedTouched := false
+	sharedRead := map[string]bool{}
 	for b := range li.blocks {
 		for _, in := range b.Instrs {
 			scan(in)
+			if _, isCall := in.(ssa.CallInstruction); isCall {
+				sharedTouched = true
+			}
+			if u, ok := in.(*ssa.UnOp); ok && u.Op == token.MUL {
+				tmp := map[string]bool{}
+				g.addrComps(u.X, tmp, map[*ssa.Alloc]bool{})
+				for c := range tmp {
+					sharedRead[c] = true
+				}
+			}
+		}
+	}
+	// other goroutines run at every interference point inside the loop (around calls, and
+	// inside blocking calls while the lock is released): every shared component is unknown
+	// again at the loop head, beyond what the loop invariants and the global invariants say
+	// (also the ones the loop's own code does not touch: the global-invariant obligations of
+	// its steps read them)
+	if sh := g.shared(); len(sh) > 0 && sharedTouched {
+		_ = sharedRead
+		for c := range sh {
+			comps[c] = true
+			dirty[c] = true
 		}
 	}
 	return
